@@ -53,7 +53,7 @@ Theorem C23_checked_exact (c : cfg) (n : Z) (u : sub) :
 Proof. exact (index_checked_exact c n u). Qed.
 Print Assumptions C23_checked_exact.
 
-(* ... in particular for /repo as it is now and every two-part subscript (scalar, ':', a:b, loop
+(* ... in particular for the intermediate tree `repo_now` (before 7248ed5, 3facb7b) and every two-part subscript (scalar, ':', a:b, loop
    index with offset), every n >= 0 and all integer bounds and offsets *)
 Theorem C23_repo_now_two_part (n : Z) (u : sub) :
   three_part u = false -> 0 <= n -> index repo_now n u = modelica n u.
@@ -73,12 +73,39 @@ Theorem C23_scalar_symbol (c : cfg) (k : Z) (u : sub) :
 Proof. exact (scalar_rejected c k u). Qed.
 Print Assumptions C23_scalar_symbol.
 
-(* REFUTED for /repo now (known finding loop-subscript-on-scalar): `Real x; for i in 1:1 loop x[i]`
+(* REFUTED for the tree before 7248ed5 (fixed finding loop-subscript-on-scalar): `Real x; for i in 1:1 loop x[i]`
    is accepted and selects the scalar itself *)
 Theorem C23_scalar_symbol_refuted :
   exists u, modelica_scalar u = ErrV /\ index_scalar repo_now 1 u = Ok [1].
 Proof. exists (LoopV 1 1 0). split; vm_compute; reflexivity. Qed.
 Print Assumptions C23_scalar_symbol_refuted.
+
+(* /repo HEAD (after 05b675f, f098077, f8eb4b4, 7248ed5, 3facb7b: every flag true): THE PROPERTY in
+   full, for every subscript form incl. three-part ranges with any non-zero step and any integer
+   expression of the loop variable, every n >= 0 *)
+Definition repo_head : cfg := Cfg true true true true true.
+Theorem C23_repo_head (n : Z) (u : sub) :
+  step_of u <> 0 -> 0 <= n -> index repo_head n u = modelica n u.
+Proof.
+  intros Hs Hn.
+  exact (index_checked_exact repo_head n u eq_refl eq_refl eq_refl (conj Hs (fun _ => eq_refl)) Hn).
+Qed.
+Print Assumptions C23_repo_head.
+
+(* ... every subscript on a scalar symbol is rejected *)
+Theorem C23_repo_head_scalar (k : Z) (u : sub) :
+  (is_loop u = true -> loop_step repo_head u <> 0) -> index_scalar repo_head k u = ErrV.
+Proof. intros Hs. exact (scalar_rejected repo_head k u Hs (or_intror eq_refl)). Qed.
+Print Assumptions C23_repo_head_scalar.
+
+(* ... and several consecutive for-equations on the same array behave as independent subscripts: the
+   first out-of-range loop raises ValueError, otherwise the selections are the Modelica ones in order *)
+Theorem C23_multi (c : cfg) (n : Z) (us : list sub) :
+  chk_slice c = true -> chk_loop c = true -> empty_ok c = true ->
+  Forall (wf c) us -> 0 <= n ->
+  index_multi c n us = modelica_multi n us.
+Proof. exact (multi_checked_exact c n us). Qed.
+Print Assumptions C23_multi.
 
 (* PARTIAL (what holds of /repo as it was, and of every configuration): two-part subscripts that stay
    inside the array -- scalar i, ':', a:b with 1 <= a and 0 <= b <= n, loop indices i+off all inside
@@ -99,7 +126,7 @@ Proof. exact (index2_sound c n m u v l). Qed.
 Print Assumptions C23_2d_checked.
 
 (* REFUTED for the code as it was before 05b675f / f098077 (`as_coded`; now fixed findings); the
-   three-part witness still holds of /repo (known finding three-part-range) *)
+   three-part witness held of /repo until 3facb7b (fixed finding three-part-range) *)
 (* x[0:2] on Real x[3]: out of range, yet generation succeeds and selects nothing *)
 Theorem C23_slice_refuted :
   exists n u, modelica n u = ErrV /\ index as_coded n u = Ok [].
